@@ -197,6 +197,17 @@ CHECKS["C09"] = dict(
     technique="TLA+ attribute-lattice enumeration (TLC) driving projection round-trip conformance on real definitions",
     design="5 C09")
 
+CHECKS["C19"] = dict(
+    text=("Cli.tla defines Rows(n) (all packets when n <= 10, else first five, ellipsis, last five) and Shown(n, i) (packet i iff 0 <= i < n, "
+          "else the out-of-range message) as a small state machine (start, frame, render) whose framing step is the Framer module's "
+          "terminating generator; TLC checks EachOnce, Elided, ParseTotal and Terminates for n in 0..13 and every index -2..n+1. Every "
+          "exported case is replayed through `spp describe-packets` / `spp parse --packet i` on files with distinct APIDs (rows parsed from "
+          "the rendered table); empty, truncated and garbage files are run in a child process under a time limit; the repository's own "
+          "JPSS listing is checked for first-five / ellipsis / last-five."),
+    note="Rows are recognised by their seven numeric cells; termination of the real CLI is observed under a time limit. " + TRUSTED,
+    technique="TLA+ spec of the listing / index rules checked by TLC; exhaustive table replay through the click runner and child processes",
+    design="5 C19")
+
 NOT_YET = {}
 for _i in range(1, 21):
     _p = f"C{_i:02d}"
